@@ -501,7 +501,7 @@ func cmdCheck(id, tier string, only []string) int {
 	// keep only the replay file of the reported violation
 	for _, b := range batches {
 		for _, o := range b.outs {
-			if o != nil && o.Violation != nil && o != firstViol && o.ReplayPath != "" {
+			if o != nil && o.Violation != nil && o != firstViol && o.ReplayPath != "" && o.ReplayPath != firstViol.ReplayPath {
 				_ = os.Remove(o.ReplayPath)
 			}
 		}
